@@ -601,7 +601,7 @@ def rejectsSomewhere : Expr → Bool
   | .setOr _ _ l r => rejectsSomewhere l || rejectsSomewhere r
   | .withScalar e => rejectsSomewhere e
 
-theorem joinFlags_pos' (on : Bool) (m : LS) (s : Src) (rs : List Src) (cs : List Nat)
+theorem joinFlags_pos_or (on : Bool) (m : LS) (s : Src) (rs : List Src) (cs : List Nat)
     (h : 0 < joinFlags on m s rs cs) : 0 < cs.sum ∨ ∃ r ∈ rs, canJoin on m s r = false := by
   by_cases hc : 0 < cs.sum
   · exact Or.inl hc
@@ -623,7 +623,7 @@ theorem zipWith_flags_pos (on : Bool) (m : LS) (rs : List Src) (rc : List Nat) :
       by_cases hc : 0 < c
       · exact Or.inl (by omega)
       · by_cases hj : 0 < joinFlags on m s rs rc
-        · rcases joinFlags_pos' on m s rs rc hj with h1 | ⟨r, hr, hrej⟩
+        · rcases joinFlags_pos_or on m s rs rc hj with h1 | ⟨r, hr, hrej⟩
           · exact Or.inr (Or.inl h1)
           · exact Or.inr (Or.inr ⟨s, by simp, r, hr, hrej⟩)
         · rcases ih cs (by omega) with h1 | h1 | ⟨s', hs', r, hr, hrej⟩
